@@ -1,5 +1,7 @@
 # Per-property configuration of the checks (scenario names, budgets, probes that evidence must list).
 CHECKS = {
+    "C01": {"scenarios": ["c01"], "quick_budget_s": 60, "thorough_budget_s": 900,
+            "real": ["src/tbb scheduler: arena, arena_slot, mailbox, task_stream, task_dispatcher, threading_control, market, private_server (RML), task_group, parallel_for, partitioners"]},
     "C08": {"scenarios": ["c08"], "quick_budget_s": 45, "thorough_budget_s": 600,
             "real": ["include/oneapi/tbb/{spin,queuing,}_mutex.h, {spin_rw,queuing_rw,rw}_mutex.h, src/tbb/queuing_rw_mutex.cpp, rtm_mutex.cpp, rtm_rw_mutex.cpp (fallback paths)"],
             "assumptions": ["speculative (RTM) variants run their non-transactional fallback paths only"]},
